@@ -1,21 +1,26 @@
 # C18 -- a failed operation leaves its target and its arguments unchanged
 LEVEL = 'model_checking'
-EXPLANATION = ('Every throwing entry point that has a target or an rvalue argument -- set(char_buffer lvalue/rvalue, mode), operator=(char_buffer lvalue/rvalue / const char* / utf16_buffer / utf32_buffer), set(ptr,n,mode), operator+=(const char*), '
+EXPLANATION = ('Every throwing entry point that has a target or an rvalue argument -- the constructors string(char_buffer&& / const char_buffer&, mode), set(char_buffer lvalue/rvalue, mode), operator=(char_buffer lvalue/rvalue / const char* / utf16_buffer / utf32_buffer), set(ptr,n,mode), operator+=(const char*), '
                'operator+=(char32_t), string + char32_t, string_stream << char16_t* / char32_t* -- runs from an ARBITRARY valid target state (both storage modes) on ARBITRARY data; when an exception is pending afterwards it is ST::unicode_error, '
                'the target keeps its bytes, size and data pointer, the (lvalue or rvalue) argument still holds its value, all invariants hold and destroying everything leaves no live block. The throwing path is a reachability witness. '
                'Decoders (codec_error) and the format parser (bad_format / out_of_range) build a fresh result: their no-leak-on-throw clause is asserted in C15 and C10.')
 BOUNDS = {'quick': 'target <= 5 bytes (small-string limit 4), argument of 2 units (3 for UTF-8 through char_buffer), every validation mode', 'thorough': 'arguments of 3..4 units'}
 OUTSIDE = 'longer arguments; ST::format with an rvalue argument (std::function takes its arguments by value: moved-from by design)'
-OPS = {1: 'set_cbuf', 2: 'set_cbuf_move', 3: 'assign_cbuf', 4: 'assign_cbuf_move', 5: 'set_ptr', 6: 'assign_cstr', 7: 'assign_u16buf', 8: 'assign_u32buf', 9: 'append_c32', 10: 'append_cstr', 11: 'concat_c32', 12: 'stream_u16', 13: 'stream_u32'}
+OPS = {1: 'set_cbuf', 2: 'set_cbuf_move', 3: 'assign_cbuf', 4: 'assign_cbuf_move', 5: 'set_ptr', 6: 'assign_cstr', 7: 'assign_u16buf', 8: 'assign_u32buf', 9: 'append_c32', 10: 'append_cstr', 11: 'concat_c32', 12: 'stream_u16', 13: 'stream_u32', 14: 'ctor_cbuf_move', 15: 'ctor_cbuf'}
 def queries():
     qs = []
     for tier, nas in (('quick', (2,)), ('thorough', (3, 4))):
         for op, nm in OPS.items():
             for na in nas:
-                n = na + 1 if (op in (1, 2, 3, 4) and tier == 'quick') else na
+                n = na + 1 if (op in (1, 2, 3, 4, 14, 15) and tier == 'quick') else na
                 if op in (9, 11) and na != nas[0]: continue
+                if op >= 14:
+                    for mode in (2,):     # check_validity is the throwing mode; substitute_invalid never throws and is > 20 GB through a constructor beyond one byte (C02 covers it at kernel level)
+                        qs.append(Q('%s_m%d_n%d_%s' % (nm, mode, n, tier), 'C18_fail.c', 'strconv.cpp', config='small', defs={'OP': op, 'NA': n, 'TMAX': 5, 'MODE': mode}, unwind=3 * n + 8, hunwind=3 * n + 12, heap_cap=max(4 * n + 12, 24), object_bits=10, tiers=(tier,),
+                                    bound={'op': nm, 'argument units': n, 'mode': mode}, timeout=900 if tier == 'quick' else 3000, mem_gb=12))
+                    continue
                 qs.append(Q('%s_n%d_%s' % (nm, n, tier), 'C18_fail.c', 'strconv.cpp', config='small', defs={'OP': op, 'NA': n, 'TMAX': 5}, unwind=(n + 3 if op >= 12 else 3 * n + 8), hunwind=3 * n + 12, heap_cap=max(4 * n + 12, 24), object_bits=10, tiers=(tier,),
-                            bound={'op': nm, 'argument units': n, 'target<=': 5}, timeout=900 if tier == 'quick' else 3000, mem_gb=8))
+                            bound={'op': nm, 'argument units': n, 'target<=': 5}, timeout=900 if tier == 'quick' else 3000, mem_gb=8 if op < 14 else 20))
     # raw-UTF-8 routes at the small-string limit (4 in this configuration): a path that treats long input differently (e.g. releases the target first) shows only there
     for op in (5, 6):
         qs.append(Q('%s_n4_quick' % OPS[op], 'C18_fail.c', 'strconv.cpp', config='small', defs={'OP': op, 'NA': 4, 'TMAX': 5}, unwind=20, hunwind=24, heap_cap=32, object_bits=10, tiers=('quick',),
